@@ -263,19 +263,20 @@ def gen_states(ctx):
 
 
 def select(ctx, exh, sim):
-    """quick: a seeded, stratified part of the exhaustive product (every boolean configuration
-    with every fragment at least once); thorough: all of it"""
-    if not ctx.quick():
-        return exh + sim
-    quota = dict(html=3200, js=1600, css=1000, json=600, svg=600, xml=300)
+    """a seeded, stratified part of the exhaustive product: every boolean configuration with every
+    single fragment first, then the rest up to the quota (thorough: everything for xml/json/css/svg)"""
+    if ctx.quick():
+        quota = dict(html=3200, js=1600, css=1000, json=600, svg=600, xml=300)
+    else:
+        quota = dict(html=110000, js=60000, css=10**9, json=10**9, svg=10**9, xml=10**9)
     out = []
     for lang in LANGS:
         part = [s for s in exh if s['lang'] == lang]
         ctx.rnd.shuffle(part)
         seen, first, rest = set(), [], []
         for s in part:
-            k = (tuple(s['on']), s['fr'][0] if len(s['fr']) == 1 else None)
-            if k[1] is not None and k not in seen:
+            k = (tuple(s['on']), s['ver'], s['prec'] if lang != 'js' else 0, s['fr'][0] if len(s['fr']) == 1 else None)
+            if k[-1] is not None and k not in seen:
                 seen.add(k)
                 first.append(s)
             else:
@@ -283,6 +284,107 @@ def select(ctx, exh, sim):
         q = quota[lang]
         out += first[:q] + rest[:max(0, q - len(first))]
     return out + sim
+
+
+HTML_BITS = ['KeepComments', 'KeepSpecialComments', 'KeepDefaultAttrVals', 'KeepDocumentTags', 'KeepEndTags',
+             'KeepQuotes', 'KeepWhitespace']          # bit order of spec/OptDesign.tla (Opt)
+DESIGN_BRANCHES = 18
+DESIGN_FAULTS = ['ws', 'ssi', 'doc', 'defaults', 'quotes', 'endtag']
+
+
+def render_sym(toks):
+    """bytes of one symbol of OptDesign!Sigma (a start tag brings its attributes)"""
+    out, open_tag = '', False
+    for t in toks:
+        if t['k'] != 'A' and open_tag:
+            out += '>'
+            open_tag = False
+        if t['k'] == 'S':
+            out += '<' + t['n']
+            open_tag = True
+        elif t['k'] == 'A':
+            q = {0: '', 1: '', 2: '"', 3: "'"}[t['q']]
+            out += ' ' + t['n'] + ('' if t['q'] == 0 else '=' + q + t['v'] + q)
+        elif t['k'] == 'E':
+            out += '</' + t['n'] + '>'
+        elif t['k'] == 'T':
+            out += bytes(t['b']).decode()
+        elif t['k'] == 'C':
+            out += '<!--' + bytes(t['b']).decode() + '-->'
+    return out + ('>' if open_tag else '')
+
+
+def design(ctx):
+    """spec/OptDesign.tla: D => A over every symbol sequence x option set (TLC), the seeded design
+    faults (thorough), and its state space as documents for the real code"""
+    dump = ctx.path('gen', 'design')
+    r = mc(ctx, 'OptDesign', 'OptDesign_quick.cfg', dump=dump, workers=4, heap='4g', timeout=1500)
+    m = re.search(r'<<"SIGMA", "(.*)">>', r['out'])
+    if not m:
+        raise vlib.Infra('OptDesign did not print its alphabet')
+    sigma = json.loads(json.loads('"' + m.group(1) + '"'))
+    branches = set(re.findall(r'"([a-z-]+)"', ' '.join(re.findall(r'<<"BRANCH", \{([^}]*)\}>>', r['out']))))
+    info = dict(design_states=r['distinct'], design_branches_taken=len(branches))
+    if len(branches) != DESIGN_BRANCHES:
+        raise vlib.Infra('design model: %d of %d branches taken: %s' % (len(branches), DESIGN_BRANCHES, sorted(branches)))
+    states = [(int(st['bits']), vlib.tla_seq_to_list(st['syms'])) for st in parse_states(open(dump + '.dump').read())]
+    states = [x for x in states if x[1]]
+    simdir = os.path.dirname(ctx.path('dessim', 'x'))
+    rs = vlib.tlc(ctx, 'OptDesign', 'OptDesign_sim.cfg', workers=1, simulate='file=%s/b,num=%d' % (simdir, 120 if ctx.quick() else 1500),
+                  depth=7, seed=ctx.seed, timeout=900)
+    if rs['errors'] or rs['invariant_violations']:
+        raise vlib.Infra('OptDesign simulate failed: ' + rs['out'][-1500:])
+    sim = []
+    for fn in sorted(os.listdir(simdir)):
+        for st in parse_states(open(os.path.join(simdir, fn)).read()):
+            sy = vlib.tla_seq_to_list(st['syms'])
+            if len(sy) >= 3:
+                sim.append((int(st['bits']), sy))
+    if not ctx.quick():
+        r3 = mc(ctx, 'OptDesign', 'OptDesign_thorough.cfg', workers=min(8, vlib.JOBS), heap='6g', timeout=2400)
+        info['design_states_thorough'] = r3['distinct']
+        killed = []
+        for f in DESIGN_FAULTS:
+            rf = vlib.tlc(ctx, 'OptDesign', 'OptDesign_fault_%s.cfg' % f, workers=2, timeout=600)
+            if 'Refines' in rf['invariant_violations']:
+                killed.append(f)
+        info['design_faults_killed'] = killed
+        if len(killed) != len(DESIGN_FAULTS):
+            raise vlib.Infra('the option relations do not reject the seeded design faults %s'
+                             % sorted(set(DESIGN_FAULTS) - set(killed)))
+    return sigma, states, sim, info
+
+
+def design_cases(ctx, sigma, states, sim):
+    quota = 2500 if ctx.quick() else 40000
+    pick = vlib.sample(states, quota, ctx.rnd) + sim
+    out = []
+    for bits, syms in pick:
+        o = default_opts()
+        for i, name in enumerate(HTML_BITS):
+            o[name] = bool((bits >> i) & 1)
+        out.append(dict(mode='lib', lang='html', o=o, flags=[], exp=dict(syms=syms),
+                        **{'in': ''.join(render_sym(sigma[k - 1]) for k in syms)}))
+    return out
+
+
+SUITE_CFG = [(5, True), (2015, False), (2016, True), (2018, False), (2019, True), (2020, False), (2021, True), (0, True)]
+
+
+def suite_cases(ctx):
+    """the repository's own JS test inputs under Version x KeepVarNames (judged on those two clauses)"""
+    ins = []
+    for r in vlib.test_inputs(ctx, 'js'):
+        if r['func'] in ('TestJS', 'TestJSVarRenaming') and r['strings'] and r['strings'][0] not in ins:
+            ins.append(r['strings'][0])
+    out = []
+    for s in ins:
+        for v, kv in SUITE_CFG:
+            out.append(dict(mode='lib', lang='js', o=dict(default_opts(), Version=v, KeepVarNames=kv), flags=[],
+                            exp=dict(suite=True), **{'in': s}))
+    if ctx.quick():
+        out = vlib.sample(out, 600, ctx.rnd)
+    return out
 
 
 def fill(tpl, pools, rnd):
@@ -377,11 +479,24 @@ def run_driver(ctx, exe, cli, cases, tag):
         c['id'] = i
     vlib.write_ndjson(cin, cases)
     vlib.run([exe, cin, tout, cli], timeout=3000)
-    if any(c['lang'] == 'js' and c['mode'] == 'lib' for c in cases):
-        ann = ctx.path('run', tag + '-ann.ndjson')
-        vlib.run(['node', '--expose-internals', os.path.join(vlib.ROOT, 'js', 'c16_features.js'), tout, ann], timeout=3000)
-        tout = ann
     lines = [l.rstrip('\n') for l in open(tout) if l.strip()]
+    js = [i for i, c in enumerate(cases) if c['lang'] == 'js' and c['mode'] == 'lib']
+    if js and len(lines) == len(cases):
+        nproc = max(1, min(vlib.JOBS, len(js) // 400 + 1))
+
+        def annotate(k):
+            part = js[k::nproc]
+            a, b = ctx.path('run', '%s-js%d.in' % (tag, k)), ctx.path('run', '%s-js%d.out' % (tag, k))
+            vlib.write_ndjson(a, [lines[i] for i in part])
+            vlib.run(['node', '--expose-internals', os.path.join(vlib.ROOT, 'js', 'c16_features.js'), a, b], timeout=3000)
+            res = [l.rstrip('\n') for l in open(b) if l.strip()]
+            if len(res) != len(part):
+                raise vlib.Infra('node runner wrote %d lines for %d' % (len(res), len(part)))
+            return part, res
+        with ThreadPoolExecutor(max_workers=nproc) as ex:
+            for part, res in ex.map(annotate, range(nproc)):
+                for i, l in zip(part, res):
+                    lines[i] = l
     if len(lines) != len(cases):
         raise vlib.Infra('driver wrote %d lines for %d cases' % (len(lines), len(cases)))
     return lines
@@ -394,9 +509,11 @@ def validate(ctx, exe, cli, cases, tag):
         vlib.log('ran', len(cases), round(time.time() - ctx.t0, 1))
     evs = [json.loads(l) for l in lines]
     for c, e in zip(cases, evs):
-        if e['mode'] == 'lib' and e['tierr'] and not c.get('pinned'):
+        if e['mode'] == 'lib' and e['tierr'] and not c.get('pinned') and not c.get('exp', {}).get('suite'):
             raise vlib.Infra('independent tokenizer rejects a generated input (%s): %r' % (e['lang'], e['in'][:200]))
-    lib_idx = [i for i, e in enumerate(evs) if e['mode'] == 'lib']
+    # a repository test input that the independent parser (or the minifier) does not accept is not a valid input: not judged
+    skip = set(i for i, (c, e) in enumerate(zip(cases, evs)) if c.get('exp', {}).get('suite') and (e['tierr'] or e['err']))
+    lib_idx = [i for i, e in enumerate(evs) if e['mode'] == 'lib' and i not in skip]
     cli_idx = [i for i, e in enumerate(evs) if e['mode'] == 'cli']
     rejects, accepted = [], 0
     if lib_idx:
@@ -421,97 +538,138 @@ def describe(c, e, whys):
                                                ' / '.join(whys))
 
 
+CHUNK = 12000
+
+
+class Tally:
+    """evidence counters, filled chunk by chunk (events are not kept)"""
+
+    def __init__(self):
+        self.nontrivial, self.per_opt, self.samples, self.sampled = set(), {}, [], set()
+        self.accepted = self.total = self.drift_same = self.drift_diff = 0
+
+    def add(self, cases, evs):
+        d = default_opts()
+        for c, e in zip(cases, evs):
+            self.total += 1
+            act = sorted(k for k, v in c['o'].items() if v != d[k])
+            if act and e['out'] != e['in']:
+                self.nontrivial.add(vlib.case_key(ident(c)))
+            for k in act:
+                self.per_opt[c['lang'] + '.' + k] = self.per_opt.get(c['lang'] + '.' + k, 0) + 1
+            kind = (c['mode'], c['lang'], 'design' if 'syms' in c.get('exp', {}) else 'frag')
+            if kind not in self.sampled and act and e['out'] != e['in'] and not c.get('pinned'):
+                self.sampled.add(kind)
+                o = {k: v for k, v in c['o'].items() if v != d[k]}
+                if c['mode'] == 'cli':
+                    self.samples.append(dict(flags=c['flags'], lang=c['lang'], **{'in': c['in'][:100]},
+                                             binary_out=e['cli'][:100], default_out=e['dflt'][:100]))
+                else:
+                    self.samples.append(dict(lang=c['lang'], o=o, source=kind[2], **{'in': c['in'][:160]}, out=e['out'][:160]))
+
+
 def run(ctx):
     exe = vlib.build_harness(ctx, 'c16')
     cli = vlib.build_cli(ctx)
     vlib.log('built', round(time.time() - ctx.t0, 1))
     vlib._speccopy(ctx)
-    with ThreadPoolExecutor(max_workers=3) as ex:      # three different modules: no clash of TLC metadirs
+    with ThreadPoolExecutor(max_workers=4) as ex:      # four different modules: no clash of TLC metadirs
         f1 = ex.submit(lexeme_pool, ctx)
         f2 = ex.submit(gen_states, ctx)
         f3 = ex.submit(cli_cases, ctx)
+        f4 = ex.submit(design, ctx)
         pools, (exh, sim), clic = f1.result(), f2.result(), f3.result()
+        sigma, dstates, dsim, dinfo = f4.result()
     for r in _MC:
         ctx.add_mc(r)
-    vlib.log('generated', len(exh), len(sim), round(time.time() - ctx.t0, 1))
-    chosen = select(ctx, exh, sim)
+    ctx.coverage.update(dinfo)
+    vlib.log('generated', len(exh), len(sim), len(dstates), len(dsim), round(time.time() - ctx.t0, 1))
+    # the renderer of the design alphabet agrees with the independent tokenizer, symbol by symbol
+    probe = [dict(mode='lib', lang='html', o=default_opts(), flags=[], exp={}, **{'in': render_sym(sy)}) for sy in sigma]
+    for sy, l in zip(sigma, run_driver(ctx, exe, cli, probe, 'sigma')):
+        if json.loads(l)['ti'] != sy:
+            raise vlib.Infra('renderer/tokenizer disagree on design symbol %r: %r' % (sy, json.loads(l)['ti']))
     cases, seen = [], set()
-    for s in chosen:
+    for p in vlib.known_cases('C16'):
+        cases.append(dict(mode=p.get('mode', 'lib'), lang=p['lang'], o=dict(default_opts(), **p['o']), flags=p.get('flags', []),
+                          exp=p.get('exp', {}), pinned=True, **{'in': p['in']}))
+    cases += clic
+    n_cli = len(clic)
+    for s in select(ctx, exh, sim):
         c = dict(mode='lib', lang=s['lang'], o=opts_of(s), flags=[], exp=dict(fr=s['inp']),
                  **{'in': render(s, pools, ctx.rnd)})
         k = vlib.case_key(ident(c))
         if k not in seen:
             seen.add(k)
             cases.append(c)
-    n_lib = len(cases)
-    cases += clic
-    n_cli = len(cases) - n_lib
-    for p in vlib.known_cases('C16'):
-        cases.append(dict(mode=p.get('mode', 'lib'), lang=p['lang'], o=dict(default_opts(), **p['o']), flags=p.get('flags', []),
-                          exp=p.get('exp', {}), pinned=True, **{'in': p['in']}))
-    evs, accepted, rejects = validate(ctx, exe, cli, cases, 'main')
-    vlib.log('validated', len(cases), 'rejects', len(rejects), round(time.time() - ctx.t0, 1))
-    why = {}
-    for i, w in rejects:
-        why.setdefault(i, []).append(w)
-    bad = sorted(why)
+    n_frag = len(cases) - n_cli
+    for c in design_cases(ctx, sigma, dstates, dsim):
+        k = vlib.case_key(ident(c))
+        if k not in seen:
+            seen.add(k)
+            cases.append(c)
+    n_design = len(cases) - n_cli - n_frag
+    cases += suite_cases(ctx)
+    n_suite = len(cases) - n_cli - n_frag - n_design
+    del exh, sim, dstates, dsim, seen
+    tally = Tally()
+    bad = []                      # (case, [clauses])
+    for k in range(0, len(cases), CHUNK):
+        part = cases[k:k + CHUNK]
+        evs, accepted, rejects = validate(ctx, exe, cli, part, 'main%d' % (k // CHUNK))
+        tally.accepted += accepted
+        tally.add(part, evs)
+        why = {}
+        for i, w in rejects:
+            why.setdefault(i, []).append(w)
+        bad += [(part[i], sorted(set(ws))) for i, ws in sorted(why.items())]
+        vlib.log('validated', k + len(part), 'of', len(cases), 'rejected so far', len(bad), round(time.time() - ctx.t0, 1))
     # every rejected case is re-run ALONE (fresh driver process, fresh TLC) before it counts; with many
-    # rejections one witness per (language, clause) first, at most MAX_ISOLATED in total
-    order, seen_kind = [i for i in bad if cases[i].get('pinned')], set()
-    for i in bad:
-        if cases[i].get('pinned'):
-            continue
-        k = (cases[i]['lang'], cases[i]['mode'], tuple(sorted(why[i])))
-        if k not in seen_kind:
-            seen_kind.add(k)
-            order.append(i)
-    order += [i for i in bad if i not in set(order)]
-    n_pinned = sum(1 for i in bad if cases[i].get('pinned'))
+    # rejections the pinned witnesses, then one witness per (language, clause), at most MAX_ISOLATED others
+    pinned = [x for x in bad if x[0].get('pinned')]
+    rest = [x for x in bad if not x[0].get('pinned')]
+    first, later, kinds = [], [], set()
+    for c, ws in rest:
+        kd = (c['lang'], c['mode'], tuple(ws))
+        (later if kd in kinds else first).append((c, ws))
+        kinds.add(kd)
     reproduced = 0
-    for n, i in enumerate(order[:MAX_ISOLATED + n_pinned]):
-        evs2, acc2, rej2 = validate(ctx, exe, cli, [dict(cases[i])], 'rerun%d' % n)
-        if rej2:
+    # the pinned witnesses of known findings: one fresh driver process and one fresh TLC for the group
+    if pinned:
+        grp = [dict(c) for c, _ in pinned]
+        evs2, acc2, rej2 = validate(ctx, exe, cli, grp, 'pinned')
+        again = {}
+        for i, w in rej2:
+            again.setdefault(i, []).append(w)
+        for i, ws in sorted(again.items()):
             reproduced += 1
-            ctx.report(ident(cases[i]), describe(cases[i], evs2[0], sorted(set(w for _, w in rej2))),
-                       replay_obj=dict(case=ident(cases[i])))
-        else:
-            raise vlib.Infra('rejection of case %d did not reproduce in isolation: %s' % (i, why[i]))
-    # ---- evidence -------------------------------------------------------------------------------
-    nontrivial = set()
-    per_opt = {}
-    d = default_opts()
-    for c, e in zip(cases, evs):
-        act = sorted(k for k, v in c['o'].items() if v != d[k])
-        if act and e['out'] != e['in']:
-            nontrivial.add(vlib.case_key(ident(c)))
-        for k in act:
-            per_opt[c['lang'] + '.' + k] = per_opt.get(c['lang'] + '.' + k, 0) + 1
-    samples = []
-    for lang in LANGS:
-        for c, e in zip(cases, evs):
-            if c['lang'] == lang and c['mode'] == 'lib' and any(v != d[k] for k, v in c['o'].items()) and e['out'] != e['in']:
-                samples.append(dict(lang=lang, o={k: v for k, v in c['o'].items() if v != d[k]},
-                                    **{'in': c['in'][:160]}, out=e['out'][:160]))
-                break
-    for c, e in zip(cases, evs):
-        if c['mode'] == 'cli':
-            samples.append(dict(flags=c['flags'], lang=c['lang'], **{'in': c['in'][:100]}, binary_out=e['cli'][:100],
-                                default_out=e['dflt'][:100]))
-            break
+            ctx.report(ident(grp[i]), describe(grp[i], evs2[i], sorted(set(ws))), replay_obj=dict(case=ident(grp[i])))
+        if len(again) != len(grp):
+            raise vlib.Infra('rejection of a pinned witness did not reproduce')
+    for n, (c, ws) in enumerate((first + later)[:MAX_ISOLATED]):
+        evs2, acc2, rej2 = validate(ctx, exe, cli, [dict(c)], 'rerun%d' % n)
+        if not rej2:
+            raise vlib.Infra('rejection did not reproduce in isolation: %s %s' % (ws, describe(c, evs2[0], ws)))
+        reproduced += 1
+        ctx.report(ident(c), describe(c, evs2[0], sorted(set(w for _, w in rej2))), replay_obj=dict(case=ident(c)))
     ctx.coverage.update(dict(
-        traces_validated_against_impl=accepted,
-        evaluations=len(cases),
-        library_cases=n_lib, cli_cases=n_cli,
-        distinct_nontrivial=len(nontrivial),
-        lines_per_active_option=per_opt,
+        traces_validated_against_impl=tally.accepted,
+        evaluations=tally.total,
+        fragment_cases=n_frag, design_state_cases=n_design, cli_cases=n_cli, repository_test_input_cases=n_suite,
+        distinct_nontrivial=len(tally.nontrivial),
+        lines_per_active_option=tally.per_opt,
         rejections=len(bad), rejections_reproduced=reproduced,
         rule='a case is (language, option configuration, document) or (flag set, document); documents are '
-             'fragment sequences enumerated by TLC from spec/OptGen.tla (exhaustive to the bound, -simulate beyond) '
-             'with a guarding construct for every active option; non-trivial = at least one option differs from its '
-             'default and the output differs from the input. Generator exclusions (pinned as known findings, see '
+             '(a) fragment sequences enumerated by TLC from spec/OptGen.tla (exhaustive to the bound, -simulate beyond) '
+             'with a guarding construct for every active option, (b) for HTML also the symbol sequences of the design '
+             'model spec/OptDesign.tla (state dump and -simulate walks) under its 2^7 option sets; non-trivial = at '
+             'least one option differs from its default and the output differs from the input; distinct by sha1 of '
+             '(language, options, flags, exact input); (c) the repository\'s own JS test inputs under 8 Version x KeepVarNames '
+             'settings, judged on those two clauses. Generator exclusions (pinned as known findings, see '
              'known/C16.txt): JS `Math.pow(a,b)` calls, JS object properties whose key equals the value identifier '
-             '(`{name: name}`), XML elements whose content is only white space (`<c> </c>`).',
-        samples=samples,
+             '(`{name: name}`), XML elements whose content is only white space (`<c> </c>`), CSS numbers written with '
+             'an exponent while KeepCSS2 is on.',
+        samples=tally.samples,
     ))
     ctx.assumptions += [
         'tokenizers trusted as independent readers: golang.org/x/net/html Tokenizer, encoding/xml RawToken, acorn (Node), '
@@ -538,6 +696,122 @@ def replay(ctx, obj):
         print('VIOLATION property=C16 replay=given')
         return 1
     return 0
+
+# ---- binding self-test (not part of the tiers): python3 -c "import props.c16 as m; m.selftest_main()" -------------
+def selftest(ctx):
+    """Corrupt ONE recorded field of an accepted line per clause and require TLC to reject exactly that clause.
+    Shows that no clause is vacuous on the generated documents and that the inner implications bite."""
+    exe = vlib.build_harness(ctx, 'c16')
+    cli = vlib.build_cli(ctx)
+    H = '<!doctype html><html><head><title>T</title></head><body><!-- c --><!--#include file="h" --><ul><li>a</li> <li>b</li></ul>' \
+        'x <b>y</b> <i>z</i> w<a href="u" title="t t">l</a><form method="get" action="a"></form>a <% x %> b</body></html>'
+    allon = dict(default_opts(), KeepComments=True, KeepSpecialComments=True, KeepDefaultAttrVals=True, KeepDocumentTags=True,
+                 KeepEndTags=True, KeepQuotes=True, KeepWhitespace=True, Delims=['<%', '%>'])
+    base = [
+        dict(mode='lib', lang='html', o=allon, **{'in': H}),
+        dict(mode='lib', lang='html', o=dict(default_opts(), KeepSpecialComments=True), **{'in': H}),
+        dict(mode='lib', lang='xml', o=dict(default_opts(), KeepWhitespace=True), **{'in': '<doc><a> x <b>y</b> z </a></doc>'}),
+        dict(mode='lib', lang='json', o=dict(default_opts(), KeepNumbers=True), **{'in': '[ 1.50 , 100000 ]'}),
+        dict(mode='lib', lang='json', o=dict(default_opts(), Precision=3), **{'in': '[ 1.23456 , 100000 ]'}),
+        dict(mode='lib', lang='css', o=dict(default_opts(), KeepCSS2=True, Precision=3), **{'in': 'a{width:1000000px;height:1.23456px}'}),
+        dict(mode='lib', lang='svg', o=dict(default_opts(), KeepComments=True, Precision=3),
+             **{'in': '<svg xmlns="http://www.w3.org/2000/svg"><!-- n --><rect x="1.23456" width="5"/></svg>'}),
+        dict(mode='lib', lang='js', o=dict(default_opts(), KeepVarNames=True, Version=2015, Precision=3),
+             **{'in': 'function outer(first) { var local = first + 1.23456; return local }\nvar alpha = beta == null ? gamma : beta;'}),
+        dict(mode='cli', lang='css', o=dict(default_opts(), Precision=2), flags=['--css-precision=2'],
+             exp=dict(fl=[dict(flag='css-precision', val=2)]), **{'in': RICH['css'][0]}),
+    ]
+    for c in base:
+        c.setdefault('flags', [])
+        c.setdefault('exp', {})
+    evs = [json.loads(l) for l in run_driver(ctx, exe, cli, base, 'selftest')]
+
+    def drop(toks, pred, last=False):
+        idx = [i for i, t in enumerate(toks) if pred(t)]
+        if not idx:
+            raise vlib.Infra('selftest: nothing to corrupt')
+        i = idx[-1] if last else idx[0]
+        return toks[:i] + toks[i + 1:]
+
+    def change(toks, pred, **kw):
+        out, done = [], False
+        for t in toks:
+            if not done and pred(t):
+                t = dict(t, **kw)
+                done = True
+            out.append(t)
+        if not done:
+            raise vlib.Infra('selftest: nothing to corrupt')
+        return out
+
+    def after(toks, pred, **kw):
+        i = [k for k, t in enumerate(toks) if pred(t)][0] + 1
+        if toks[i]['k'] != 'T' or toks[i]['b'] != [32]:
+            raise vlib.Infra('selftest: unexpected token after marker')
+        return toks[:i] + [dict(toks[i], **kw)] + toks[i + 1:]
+
+    def wsless(toks):
+        out, done = [], False
+        for t in toks:
+            if not done and t['k'] == 'T' and 32 in t['b'][1:-1] and t['b'] != [32]:
+                b = list(t['b'])
+                b.remove(32) if b[0] != 32 else b.pop(1 + b[1:].index(32))
+                t = dict(t, b=b)
+                done = True
+            out.append(t)
+        return out
+
+    h, hs, x, jk, jp, cs, sv, js, cl = evs
+    muts = [
+        ('KeepEndTags', dict(h, to=drop(h['to'], lambda t: t['k'] == 'E' and t['n'] == 'li'))),
+        ('KeepDocumentTags', dict(h, to=drop(h['to'], lambda t: t['k'] == 'S' and t['n'] == 'head'))),
+        ('KeepQuotes', dict(h, to=change(h['to'], lambda t: t['k'] == 'A' and t['q'] == 2, q=1))),
+        ('KeepDefaultAttrVals', dict(h, to=drop(h['to'], lambda t: t['k'] == 'A' and t['n'] == 'method'))),
+        ('KeepWhitespace', dict(h, to=after(h['to'], lambda t: t['k'] == 'E' and t['n'] == 'b', b=[]))),      # the blank between </b> and <i>
+        ('Comments', dict(h, to=drop(h['to'], lambda t: t['k'] == 'C'))),
+        ('Comments', dict(hs, to=hs['to'] + [dict(k='C', n='', t='', v='', q=0, b=[32, 99, 32])])),
+        ('Comments', dict(hs, to=drop(hs['to'], lambda t: t['k'] == 'C' and t['b'][:1] == [35]))),
+        ('TemplateDelims', dict(h, so=[h['so'][0].replace(' x ', ' x')])),
+        ('KeepWhitespace', dict(x, to=change(x['to'], lambda t: t['k'] == 'T' and t['b'][:1] == [32], b=[120]))),
+        ('KeepNumbers', dict(jk, to=change(jk['to'], lambda t: t['k'] == 'num', b=[49, 46, 53]))),
+        ('Precision', dict(jp, to=change(jp['to'], lambda t: t['k'] == 'num', b=[49, 46, 50]))),
+        ('KeepCSS2', dict(cs, to=change(cs['to'], lambda t: t['k'] == 'num', b=[49, 101, 54]))),
+        ('Precision', dict(cs, to=change(cs['to'], lambda t: t['k'] == 'num' and t['b'][:1] == [49] and len(t['b']) < 7, b=[49, 46, 51]))),
+        ('KeepComments', dict(sv, to=drop(sv['to'], lambda t: t['k'] == 'C'))),
+        ('Precision', dict(sv, to=change(sv['to'], lambda t: t['k'] == 'AN' and t['n'] == 'x', b=[49, 46, 51]))),
+        ('Version (features)', dict(js, fo=js['fo'] + ['nullish'])),
+        ('Version (edition)', dict(js, pvo=2020)),
+        ('KeepVarNames', dict(js, ido=js['ido'] + ['e'])),
+        ('KeepVarNames', dict(js, dco=js['dco'] + ['t'])),
+        ('Precision', dict(js, no=[[49, 46, 51]] + js['no'][1:])),
+        ('binary output differs from library output under the documented options', dict(cl, cli=cl['cli'] + ' ')),
+        ('flag has no effect on a discriminating input', dict(cl, dflt=cl['cli'])),
+        ('library run does not use the documented options', dict(cl, o=dict(cl['o'], Precision=3))),
+    ]
+    ok = True
+    acc, rej = vlib.tlc_trace(ctx, 'C16Trace', 'C16Trace.cfg', [e for e in evs if e['mode'] == 'lib'], shards=1)
+    acc2, rej2 = vlib.tlc_trace(ctx, 'CliFlagsTrace', 'CliFlagsTrace.cfg', [cl], shards=1)
+    print('uncorrupted lines rejected:', rej + rej2)
+    ok = ok and not rej and not rej2
+    lib = [(w, e) for w, e in muts if e['mode'] == 'lib']
+    clis = [(w, e) for w, e in muts if e['mode'] == 'cli']
+    for spec, group in (('C16Trace', lib), ('CliFlagsTrace', clis)):
+        acc, rej = vlib.tlc_trace(ctx, spec, spec + '.cfg', [e for _, e in group], shards=1)
+        got = {}
+        for i, w in rej:
+            got.setdefault(i, set()).add(w)
+        for i, (want, e) in enumerate(group):
+            hit = want in got.get(i, set())
+            ok = ok and hit
+            print('%-8s corrupt -> expect %-40s got %s %s' % (e['lang'], want[:40], sorted(got.get(i, [])), 'OK' if hit else 'MISSED'))
+    return ok
+
+
+def selftest_main():
+    import random
+    ctx = vlib.Ctx('C16', 'quick', 1)
+    ctx.rnd = random.Random(1)
+    print('selftest', 'PASSED' if selftest(ctx) else 'FAILED')
 
 
 META = dict(
